@@ -169,7 +169,7 @@ class Rule(MethodWIGM):
             #  find & transfer highest surplus
             #
             if C.pending():
-                high_vote = max(c.vote for c in C.pending())
+                high_vote = -V.min([-c.vote for c in C.pending()])  # the stored maximum (built-in max compares within the guarded tolerance)
                 high_candidates = [c for c in C.pending() if c.vote == high_vote]
                 high_candidate = breakTie(E, high_candidates, 'surplus')
                 high_candidate.unpend('Transfer high surplus')
